@@ -441,6 +441,9 @@ func (s *Store) inferParams(n *pg_query.Node, out map[int]ColType) {
 				walkWhere(sc, a)
 			}
 		}
+		if sl := w.GetSubLink(); sl != nil {
+			s.inferParams(sl.Subselect, out) // c09.go: <column> IN (SELECT ...)
+		}
 		if e := w.GetAExpr(); e != nil {
 			if t, ok := sc.exprType(e.Lexpr); ok {
 				note(e.Rexpr, t)
@@ -481,6 +484,9 @@ func (s *Store) inferParams(n *pg_query.Node, out map[int]ColType) {
 	case n.GetSelectStmt() != nil:
 		sel := n.GetSelectStmt()
 		walkWhere(s.scopeOf(sel.FromClause), sel.WhereClause)
+		for _, q := range joinQuals(sel.FromClause) { // c09.go: placeholders inside ON
+			walkWhere(s.scopeOf(sel.FromClause), q)
+		}
 	case n.GetDeleteStmt() != nil:
 		d := n.GetDeleteStmt()
 		if t := s.tableOf(d.Relation); t != nil {
@@ -696,6 +702,9 @@ func (x *execCtx) evalCond(sc *scope, row map[*table][]Value, w *pg_query.Node) 
 			return false, err
 		}
 		return v.Null == (nt.Nulltesttype == pg_query.NullTestType_IS_NULL), nil
+	}
+	if sl := w.GetSubLink(); sl != nil {
+		return x.evalSubLink(sc, row, sl) // c09.go
 	}
 	e := w.GetAExpr()
 	if e == nil {
